@@ -178,7 +178,11 @@ def encodePairs (cfg : EncCfg) : List (GoVal Ã— GoVal) â†’ Option (List (Bytes Ã
       | _, _, _ => none
 /-- `Headers.MarshalProtected` / `MarshalUnprotected` followed by the `RawMessage`
     marshaler: retained raw bytes verbatim when non-empty, else the encoded map
-    (`ProtectedHeader.MarshalCBOR` / `UnprotectedHeader.MarshalCBOR`). -/
+    (`ProtectedHeader.MarshalCBOR` / `UnprotectedHeader.MarshalCBOR`).  The freshly encoded
+    unprotected map (not retained raw bytes, not the protected one) must pass
+    `decModeWithTagsForbidden.Wellformed` (headers.go:256): in this data domain that refuses
+    nesting beyond `maxNested` counted from the bucket's own map, more than `maxElems`
+    elements, and the simple values 24..31 (which the encoder writes as `f8 xx`). -/
 def encodeBucket (cfg : EncCfg) (prot : Bool) : Option Bytes â†’ List (GoVal Ã— GoVal) â†’ Option Bytes
   | some (b :: bs), _ => some (b :: bs)
   | _, [] => some (if prot then [0x40] else [0xa0])
@@ -187,7 +191,8 @@ def encodeBucket (cfg : EncCfg) (prot : Bool) : Option Bytes â†’ List (GoVal Ã— 
       match encodePairs cfg (e :: es) with
       | some ps =>
           let m := encHead 5 (e :: es).length ++ concatPairs (sortPairs ps)
-          some (if prot then encBstr m else m)
+          if prot then some (encBstr m)
+          else if wellformedNoTags m then some m else none
       | none => none
 end
 
